@@ -114,6 +114,12 @@ impl Gen {
         (0..n).map(|_| f(self)).collect()
     }
 
+    pub fn pre_cmd(&mut self, snap: &Value, c: &str) -> Value {
+        self.prereg(snap, c)
+    }
+    pub fn reg_cmd(&mut self, snap: &Value, c: &str) -> Value {
+        self.registered_cmd(snap, c)
+    }
     fn prereg(&mut self, snap: &Value, c: &str) -> Value {
         let k = &snap["conns"][c];
         let has_nick = k["nick"].as_array().map(|a| !a.is_empty()).unwrap_or(false);
